@@ -149,7 +149,7 @@ def vkey(trace, li):
     if r0.get("ctx", "wide") != "wide" or r0.get("hist", "none") != "none":
         k += " ctx=%s hist=%s" % (r0.get("ctx", "wide"), r0.get("hist", "none"))
     if e["op"] == "return":
-        return k + " rej=return err=%s pan=%s certs=%d" % (str(e["err"]).lower(), str(e["pan"]).lower(), len(e["certs"]))
+        return k + " rej=return err=%s pan=%s%s certs=%d" % (str(e["err"]).lower(), str(e["pan"]).lower(), " hang=true" if e.get("hang") else "", len(e["certs"]))
     if e["op"] == "contact":
         return k + " rej=contact ep=%d hs=%s ver=%s cc=%s rpc=%s same=%s" % (e["ep"], e["hs"], e["ver"], e["cc"], str(e["rpc"]).lower(), str(e["same"]).lower())
     return k + " rej=%s err=%s" % (e["op"], str(e.get("err")).lower())
@@ -176,7 +176,7 @@ def judge(prop, verdict, sbin, bbin, traces, label, stats):
     sanity(traces)
     # a panic of Sign on a Signer built as a struct literal by the harness (not by NewSigner) says nothing about the code:
     # that construction path gives no verdict, the NewSigner-based paths still do
-    lit = [t for t in traces if (t[0].get("info") or {}).get("via") in ("direct", "directnil") and any(r["e"].get("pan") for r in t[1:])]
+    lit = [t for t in traces if (t[0].get("info") or {}).get("via") in ("direct", "directnil", "literal") and any(r["e"].get("pan") for r in t[1:])]
     if lit:
         log("NO-VERDICT for %d case(s) on a Signer built as a struct literal (Sign panicked; construction path dropped): %s" % (len(lit), lit[0][0].get("info")))
         stats["literal_dropped"] = stats.get("literal_dropped", 0) + len(lit)
@@ -241,7 +241,8 @@ def judge(prop, verdict, sbin, bbin, traces, label, stats):
         bykey.setdefault(vkey(t, li), []).append((t, li))
     for k in sorted(bykey):
         t, li = bykey[k][0]
-        rp = vlib.save_replay(prop, "%s_%s.ndjson" % (label, t[0]["tid"]), t) if len(verdict.violations) < 25 else "(not saved)"
+        stats["saved"] = stats.get("saved", 0) + 1
+        rp = vlib.save_replay(prop, "%s_%d_%s.ndjson" % (label, stats["saved"], t[0]["tid"]), t) if len(verdict.violations) < 25 else "(not saved)"
         info = t[0].get("info") or {}
         verdict.violation(k, "step %d of trace %s (and %d more cases with this key) is not allowed by %s_Step: %s%s" % (
             li, t[0]["tid"], len(bykey[k]) - 1, prop, json.dumps(t[li]["e"]), (" raw=" + json.dumps(info.get("raw"))) if info.get("raw") else ""), rp)
